@@ -193,6 +193,7 @@ type relayRig struct {
 	limit       int    // C17: body limit on /api
 	hosts       int    // upstream hosts (2 = retries enabled: the body is buffered first)
 	noHijack    bool   // the front connection cannot be hijacked (as over HTTP/2): a backend that answers 101 cannot be obeyed
+	authRule    bool   // header_upstream replaces Authorization and passes the client's on as X-Client-Authorization
 	pathRule    bool   // a header_upstream rule copies {path} into a field
 	deadFirst   bool   // the first of two hosts refuses connections: every request is retried at the second
 	cutFirst    bool   // the first of two hosts accepts, reads the beginning of the request and resets the connection
@@ -609,6 +610,11 @@ func runRelayIn(c *sim.Ctl, mode string) {
 		}
 	}
 	if pick(25) {
+		// the gateway's own credentials replace the client's, which travel on under another name
+		r.upRules = append(r.upRules, [2]string{"Authorization", "Bearer gateway"}, [2]string{"X-Client-Authorization", "{>Authorization}"})
+		r.authRule = true
+	}
+	if pick(25) {
 		// a field is set and then added to: the rules take effect in the order they are written in
 		r.upRules = append(r.upRules, [2]string{"X-Role", "gateway"}, [2]string{"+X-Role", "tenant-a"})
 	}
@@ -784,6 +790,12 @@ func (r *relayRig) addReq(i int) {
 	q.query = []string{"", "a=1", "a=1&b=%20x&c", "q=%2F%3F", "x=1;y=2"}[st.Draw(5)]
 	q.srcIP = fmt.Sprintf("10.1.0.%d", 1+st.Draw(5))
 	q.hdrs = append(q.hdrs, [2]string{"X-Req", fmt.Sprint(i)})
+	if pick(50) {
+		q.hdrs = append(q.hdrs, [2]string{"User-Agent", "sim-client/1.0"}) // (as nearly every real client sends one)
+	}
+	if r.authRule && pick(70) {
+		q.hdrs = append(q.hdrs, [2]string{"Authorization", fmt.Sprintf("Basic Y2xpZW50LSVk%d", i)})
+	}
 	if pick(70) {
 		q.hdrs = append(q.hdrs, [2]string{"X-A", "one"})
 		if pick(50) {
@@ -1045,6 +1057,16 @@ func (q *rreq) expand(v string) string {
 	v = strings.ReplaceAll(v, "{remote}", q.srcIP)
 	v = strings.ReplaceAll(v, "{>X-Req}", fmt.Sprint(q.id))
 	v = strings.ReplaceAll(v, "{method}", q.method)
+	if strings.Contains(v, "{>Authorization}") {
+		// (placeholders stand for the request as the client sent it, whatever earlier rules did to the copy going out)
+		cv := ""
+		for _, h := range q.hdrs {
+			if h[0] == "Authorization" {
+				cv = h[1]
+			}
+		}
+		v = strings.ReplaceAll(v, "{>Authorization}", cv)
+	}
 	if strings.Contains(v, "{path}") {
 		p, _ := url.PathUnescape(q.path)
 		v = strings.ReplaceAll(v, "{path}", p)
@@ -1142,9 +1164,13 @@ func (r *relayRig) judge() {
 					delete(want, http.CanonicalHeaderKey(u[0][1:]))
 				case strings.HasPrefix(u[0], "+"):
 					k := http.CanonicalHeaderKey(u[0][1:])
-					want[k] = append(want[k], q.expand(u[1]))
+					if v := q.expand(u[1]); v != "" {
+						want[k] = append(want[k], v)
+					}
 				default:
-					want[http.CanonicalHeaderKey(u[0])] = []string{q.expand(u[1])}
+					if v := q.expand(u[1]); v != "" { // (a rule whose value expands to nothing leaves the field alone)
+						want[http.CanonicalHeaderKey(u[0])] = []string{v}
+					}
 				}
 			}
 			if r.regexRules {
